@@ -231,3 +231,21 @@ Definition check_snap_case (c : snap_case) : bool :=
   && list_eqb entry_eqb (so_table o) (sn_obs_table c)
   && list_eqb (option_eqb vref_eqb) (so_watches o) (sn_obs_watches c)
   && forallb (fun r => modifier_eqb (modifier_of (r_name (or_ref r))) (or_mod r)) (sn_obs_mods c).
+
+(* per-property projections of the comparison: the correspondence of a property looks at that property's own observables only,
+   so that a change which touches other observables (the text of a value, a type name, a modifier) does not break it *)
+Definition strip_ref (r : vref) : vref := {| r_vid := r_vid r; r_name := []; r_orig := None |}.
+(* C05 - bounds and order: how many entries and in which order, length of every value and its truncation flag, the children *)
+Definition proj_bounds (x : var) : var :=
+  {| v_ty := []; v_val := map (fun _ => 0) (v_val x); v_trunc := v_trunc x; v_oid := v_oid x; v_children := map strip_ref (v_children x) |}.
+(* C07 - identity: which object every entry stands for, and which ids every reference holds *)
+Definition proj_identity (x : var) : var :=
+  {| v_ty := []; v_val := []; v_trunc := false; v_oid := v_oid x; v_children := map strip_ref (v_children x) |}.
+Definition check_snap_case_proj (p : var -> var) (c : snap_case) : bool :=
+  let o := snapshot (sn_fuel c) true (sn_cfg c) (sn_heap c) (sn_frames c) (sn_watches c) in
+  so_ok o
+  && list_eqb (list_eqb vref_eqb) (map (map strip_ref) (so_frames o)) (map (map strip_ref) (sn_obs_frames c))
+  && list_eqb entry_eqb (map (fun e => (fst e, p (snd e))) (so_table o)) (map (fun e => (fst e, p (snd e))) (sn_obs_table c))
+  && list_eqb (option_eqb vref_eqb) (map (option_map strip_ref) (so_watches o)) (map (option_map strip_ref) (sn_obs_watches c)).
+Definition check_snap_case_bounds : snap_case -> bool := check_snap_case_proj proj_bounds.
+Definition check_snap_case_identity : snap_case -> bool := check_snap_case_proj proj_identity.
